@@ -111,8 +111,13 @@ spec fn transitions_sorted(t: Seq<Transition>) -> bool {
     forall|i: int, j: int| 0 <= i < j < t.len() ==> t[i].unix_leap_time < t[j].unix_leap_time
 }
 
+spec fn trans_step_lt(t: Seq<Transition>, i: int) -> bool {
+    t[i].unix_leap_time < t[i + 1].unix_leap_time
+}
+
+// "transition times strictly increase" (function-symbol trigger: no matching loop through t[i + 1])
 spec fn transitions_step_sorted(t: Seq<Transition>) -> bool {
-    forall|i: int| 0 <= i < t.len() - 1 ==> (#[trigger] t[i]).unix_leap_time < t[i + 1].unix_leap_time
+    forall|i: int| 0 <= i < t.len() - 1 ==> #[trigger] trans_step_lt(t, i)
 }
 
 spec fn indices_ok(t: Seq<Transition>, n: int) -> bool {
@@ -162,9 +167,13 @@ spec fn zone_wf(z: TimeZoneRef) -> bool {
 
 // C03: the local time type in force at count t for a non-empty table, t before the last transition:
 // the type of the latest transition at or before t, the zone's first type before the first transition
+spec fn in_slot(tr: Seq<Transition>, i: int, t: int) -> bool {
+    0 <= i < tr.len() - 1 && tr[i].unix_leap_time <= t < tr[i + 1].unix_leap_time
+}
+
 spec fn table_type_is(tr: Seq<Transition>, types: Seq<LocalTimeType>, t: int, lt: LocalTimeType) -> bool {
     &&& (t < tr[0].unix_leap_time ==> lt == types[0])
-    &&& (forall|i: int| 0 <= i < tr.len() - 1 && (#[trigger] tr[i]).unix_leap_time <= t < tr[i + 1].unix_leap_time ==> lt == types[tr[i].local_time_type_index as int])
+    &&& (forall|i: int| #[trigger] in_slot(tr, i, t) ==> lt == types[tr[i].local_time_type_index as int])
 }
 
 // C03 as a relation between the zone, the UTC instant and the lookup's answer
@@ -210,4 +219,30 @@ spec fn lookup_err(z: TimeZoneRef, u: int, e: TzError) -> bool {
 // the UTC -> count conversion leaves the i64 range only if some u + correction does
 spec fn leap_conv_overflows(s: Seq<LeapSecond>, u: int) -> bool {
     exists|k: int| 0 <= k < s.len() && !(i64::MIN <= u + #[trigger] s[k].correction <= i64::MAX)
+}
+
+// known finding F2 (C04) propagates here: when the trailing rule's answer at the last transition is in the
+// rule evaluator's known-defect class, the constructor's decision on the rule clause is left unspecified
+spec fn zone_defect_at_last(z: TimeZoneRef) -> bool {
+    match *z.extra_rule {
+        Some(rule) => z.transitions@.len() > 0 && rule_defect_class(rule, g_spec(z.leap_seconds@, z.transitions@[z.transitions@.len() - 1].unix_leap_time as int)),
+        None => false,
+    }
+}
+
+// C13 as a relation between a candidate zone and the constructor's verdict: Ok exactly for well-formed zones,
+// and every error names a violated clause
+spec fn zone_verdict(z: TimeZoneRef, r: Result<(), TzError>) -> bool {
+    match r {
+        Ok(_) => zone_wf_base(z) && (!zone_defect_at_last(z) ==> zone_rule_consistent(z)),
+        Err(e) => match e {
+            TzError::TimeZone(TimeZoneError::NoLocalTimeType) => z.local_time_types@.len() == 0,
+            TzError::TimeZone(TimeZoneError::InvalidLocalTimeTypeIndex) => z.local_time_types@.len() > 0 && !indices_ok(z.transitions@, z.local_time_types@.len() as int),
+            TzError::TimeZone(TimeZoneError::InvalidTransition) => !transitions_step_sorted(z.transitions@),
+            TzError::TimeZone(TimeZoneError::InvalidLeapSecond) => !leaps_wf(z.leap_seconds@),
+            TzError::TimeZone(TimeZoneError::InconsistentExtraRule) => zone_wf_base(z) && (!zone_defect_at_last(z) ==> !zone_rule_consistent(z)),
+            TzError::OutOfRange => zone_wf_base(z) && !zone_rule_consistent(z),
+            _ => false,
+        },
+    }
 }
